@@ -1,8 +1,10 @@
 (* Extract_relax.v -- extraction of the relaxation models (C06) to OCaml.
-   Directives: ExtractCommon.v (trusted base, DESIGN.md section 6). *)
+   Directives: ExtractCommon.v (trusted base, DESIGN.md section 6).
+   BlockInst: the static_matrix<T,b,b> Scalar instance (block-valued smoothers, ops_relax_block.ml). *)
 From Amgcl Require Import ExtractCommon.
 From Coq Require Import QArith Qcanon.
-From Amgcl Require Import Scalar QcInst Vec Crs Kernels MatOps Relax Ilu Cheby DenseSolve Spai1.
+From Amgcl Require Import Scalar QcInst Vec Crs Kernels MatOps Relax Ilu Cheby DenseSolve Spai1
+  DirectUtil Inverse StaticMat BlockInst.
 Separate Extraction
   QcInst.QcS Scalar.is_zero Scalar.smax Scalar.smin
-  Vec Crs Kernels MatOps Relax Ilu Cheby DenseSolve Spai1.
+  Vec Crs Kernels MatOps Relax Ilu Cheby DenseSolve Spai1 StaticMat BlockInst.
